@@ -27,7 +27,7 @@ type htmlReplay struct {
 	Soft  int    `json:"soft"`
 	Raw   int    `json:"raw"`             // 1 = IgnoreRaw false (only for documents without raw HTML nodes)
 	Filt  int    `json:"filt,omitempty"`  // FilterTag: 0 nil, 1 GFM, 2 rejects every tag, 3 rejects none - with IgnoreRaw set none of them may matter
-	Route int    `json:"route,omitempty"` // 1 = blocks read one line per Read through NewBlockParser, all kept, rendered after the last one was returned
+	Route int    `json:"route,omitempty"` // 1 = blocks read one line per Read through NewBlockParser, all kept, rewritten and rendered after the last one was returned; 2 = each block rewritten as soon as it is returned, rendered at the end
 }
 
 func c07Filter(k int) func([]byte) bool {
@@ -65,6 +65,21 @@ func renderWith(input []byte, soft int, ignoreRaw bool, filter func([]byte) bool
 	var refs commonmark.ReferenceMap
 	if route == 1 {
 		blocks, refs, _ = streamParseFrom(&lineReader{data: append([]byte(nil), input...)})
+	} else if route == 2 {
+		// every block is extracted from and rewritten as soon as NextBlock has returned it (references defined so far), kept, and
+		// rendered only after the last block has been returned: spans computed early must still fit the Source at the end
+		p := commonmark.NewBlockParser(&lineReader{data: append([]byte(nil), input...)})
+		refs = make(commonmark.ReferenceMap)
+		ip := &commonmark.InlineParser{ReferenceMatcher: refs}
+		for {
+			b, err := p.NextBlock()
+			if err != nil {
+				break
+			}
+			refs.Extract(b.Source, b.AsNode())
+			ip.Rewrite(b)
+			blocks = append(blocks, b)
+		}
 	} else {
 		blocks, refs = commonmark.Parse(append([]byte(nil), input...))
 	}
@@ -159,7 +174,7 @@ func cmdHTML(args []string) *Result {
 			}
 			// raw HTML ignored WITH a tag filter installed (the filter must not bring raw HTML back), on blocks that came through the
 			// streaming entry point line by line and were all kept until the last one had been returned
-			record(d, ndoc%3, 0, 1+ndoc%3, 1, true)
+			record(d, ndoc%3, 0, 1+ndoc%3, 1+ndoc%2, true)
 			record(d, int(seed())%3, 1, 0, 0, true)
 		}
 		n := 3
